@@ -13,6 +13,8 @@ import (
 	"math/rand/v2"
 	"os"
 	"sort"
+	"strconv"
+	"strings"
 
 	"github.com/drshriveer/gtools/set"
 
@@ -46,20 +48,35 @@ type mop struct {
 }
 
 type mcase struct {
-	Kind string  `json:"kind"`
-	Elem string  `json:"elem"`
-	N    int     `json:"universe"`
-	K    int     `json:"vars"`
-	Ops  []mop   `json:"mops"`
-	Obs  [][]obs `json:"mobs"`
+	Kind  string  `json:"kind"`
+	Elem  string  `json:"elem"`
+	N     int     `json:"universe"`
+	K     int     `json:"vars"`
+	Ops   []mop   `json:"mops"`
+	Obs   [][]obs `json:"mobs"`
+	Panic string  `json:"panic,omitempty"` // the LAST operation of mops panicked (it has no row in mobs)
 }
 
 type jcase struct {
-	Kind string `json:"kind"`
-	Elem string `json:"elem"`
-	N    int    `json:"universe"`
-	Ops  []op   `json:"ops"`
-	Obs  []obs  `json:"obs"`
+	Kind  string `json:"kind"`
+	Elem  string `json:"elem"`
+	N     int    `json:"universe"`
+	Ops   []op   `json:"ops"`
+	Obs   []obs  `json:"obs"`
+	Panic string `json:"panic,omitempty"` // the LAST operation of ops panicked (it has no entry in obs)
+}
+
+// guarded runs one step of a program on the real code; a panic is returned as text.  The
+// sequence is cut after a panicking operation: the case then lists one operation more than it has
+// observations, which no run of the specification or of the model does — a failing input.
+func guarded(step func()) (msg string) {
+	defer func() {
+		if r := recover(); r != nil {
+			msg = fmt.Sprint("panic: ", r)
+		}
+	}()
+	step()
+	return ""
 }
 
 func pick[T any](univ []T, idx []int) []T {
@@ -70,61 +87,53 @@ func pick[T any](univ []T, idx []int) []T {
 	return out
 }
 
-func runSeq[T comparable](univ []T, ops []op) []obs {
+func runSeq[T comparable](univ []T, ops []op) ([]obs, int, string) {
 	index := make(map[T]int, len(univ))
 	for i, u := range univ {
 		index[u] = i
 	}
 	var s set.Set[T]
 	out := make([]obs, 0, len(ops))
-	for _, o := range ops {
-		ret := false
-		items := pick(univ, o.Args)
-		switch o.Op {
-		case "Nil":
-			s = nil
-		case "Make":
-			s = set.Make(items...)
-		case "Add":
-			ret = s.Add(items...)
-		case "AddSet":
-			ret = s.AddSet(set.Make(items...))
-		case "AddSetNil":
-			ret = s.AddSet(nil)
-		case "AddSelf":
-			ret = s.AddSet(s)
-		case "Remove":
-			ret = s.Remove(items...)
-		case "RemoveSet":
-			ret = s.RemoveSet(set.Make(items...))
-		case "RemoveSetNil":
-			ret = s.RemoveSet(nil)
-		case "RemoveSelf":
-			ret = s.RemoveSet(s)
-		case "Has":
-			ret = s.Has(items...)
-		case "HasAny":
-			ret = s.HasAny(items...)
-		default:
-			panic("unknown op " + o.Op)
-		}
-		sl := s.Slice()
-		ob := obs{Ret: ret, Nil: sl == nil, Members: make([]int, 0, len(sl))}
-		for _, v := range sl {
-			k, ok := index[v]
-			if !ok {
-				k = -1 // an element that was never in the universe
+	for i, o := range ops {
+		var ob obs
+		if msg := guarded(func() {
+			ret := false
+			items := pick(univ, o.Args)
+			switch o.Op {
+			case "Nil":
+				s = nil
+			case "Make":
+				s = set.Make(items...)
+			case "Add":
+				ret = s.Add(items...)
+			case "AddSet":
+				ret = s.AddSet(set.Make(items...))
+			case "AddSetNil":
+				ret = s.AddSet(nil)
+			case "AddSelf":
+				ret = s.AddSet(s)
+			case "Remove":
+				ret = s.Remove(items...)
+			case "RemoveSet":
+				ret = s.RemoveSet(set.Make(items...))
+			case "RemoveSetNil":
+				ret = s.RemoveSet(nil)
+			case "RemoveSelf":
+				ret = s.RemoveSet(s)
+			case "Has":
+				ret = s.Has(items...)
+			case "HasAny":
+				ret = s.HasAny(items...)
+			default:
+				panic("unknown op " + o.Op)
 			}
-			ob.Members = append(ob.Members, k)
-		}
-		sort.Ints(ob.Members)
-		for _, u := range univ {
-			ob.Has = append(ob.Has, s.Has(u))
-			ob.HasAny = append(ob.HasAny, s.HasAny(u))
+			ob = probe(univ, index, s, ret)
+		}); msg != "" {
+			return out, i + 1, msg
 		}
 		out = append(out, ob)
 	}
-	return out
+	return out, len(ops), ""
 }
 
 func probe[T comparable](univ []T, index map[T]int, s set.Set[T], ret bool) obs {
@@ -146,43 +155,48 @@ func probe[T comparable](univ []T, index map[T]int, s set.Set[T], ret bool) obs 
 }
 
 // runMulti executes a program over k set variables and probes all of them after every step.
-func runMulti[T comparable](univ []T, k int, ops []mop) [][]obs {
+func runMulti[T comparable](univ []T, k int, ops []mop) ([][]obs, int, string) {
 	index := make(map[T]int, len(univ))
 	for i, u := range univ {
 		index[u] = i
 	}
 	vars := make([]set.Set[T], k)
 	out := make([][]obs, 0, len(ops))
-	for _, o := range ops {
-		ret := false
-		items := pick(univ, o.Args)
-		switch o.Op {
-		case "Nil":
-			vars[o.V] = nil
-		case "Make":
-			vars[o.V] = set.Make(items...)
-		case "Add":
-			ret = vars[o.V].Add(items...)
-		case "AddSet":
-			ret = vars[o.V].AddSet(vars[o.W])
-		case "Remove":
-			ret = vars[o.V].Remove(items...)
-		case "RemoveSet":
-			ret = vars[o.V].RemoveSet(vars[o.W])
-		case "Has":
-			ret = vars[o.V].Has(items...)
-		case "HasAny":
-			ret = vars[o.V].HasAny(items...)
-		default:
-			panic("unknown op " + o.Op)
-		}
-		row := make([]obs, k)
-		for i := range vars {
-			row[i] = probe(univ, index, vars[i], ret)
+	for i, o := range ops {
+		var row []obs
+		if msg := guarded(func() {
+			ret := false
+			items := pick(univ, o.Args)
+			switch o.Op {
+			case "Nil":
+				vars[o.V] = nil
+			case "Make":
+				vars[o.V] = set.Make(items...)
+			case "Add":
+				ret = vars[o.V].Add(items...)
+			case "AddSet":
+				ret = vars[o.V].AddSet(vars[o.W])
+			case "Remove":
+				ret = vars[o.V].Remove(items...)
+			case "RemoveSet":
+				ret = vars[o.V].RemoveSet(vars[o.W])
+			case "Has":
+				ret = vars[o.V].Has(items...)
+			case "HasAny":
+				ret = vars[o.V].HasAny(items...)
+			default:
+				panic("unknown op " + o.Op)
+			}
+			row = make([]obs, k)
+			for i := range vars {
+				row[i] = probe(univ, index, vars[i], ret)
+			}
+		}); msg != "" {
+			return out, i + 1, msg
 		}
 		out = append(out, row)
 	}
-	return out
+	return out, len(ops), ""
 }
 
 func universeOf(elem string, n int) any {
@@ -194,7 +208,14 @@ func universeOf(elem string, n int) any {
 		}
 		return u
 	case "string":
-		return []string{"", "a", "A", "ab", "é", "a b", "true", "null"}[:n]
+		u := make([]string, n)
+		for i := range u {
+			u[i] = []string{"", "a", "A", "ab", "é", "a b", "true", "null"}[i%8]
+			if i >= 8 {
+				u[i] += fmt.Sprint(i / 8)
+			}
+		}
+		return u
 	default:
 		u := make([]pt, n)
 		for i := range u {
@@ -204,7 +225,7 @@ func universeOf(elem string, n int) any {
 	}
 }
 
-func runM(elem string, n, k int, ops []mop) [][]obs {
+func runM(elem string, n, k int, ops []mop) ([][]obs, int, string) {
 	switch u := universeOf(elem, n).(type) {
 	case []int:
 		return runMulti(u, k, ops)
@@ -238,14 +259,15 @@ func galMop(o mop) string {
 }
 
 func emitMulti(out *gal.Out, kind, elem string, n, k int, ops []mop) {
-	ob := runM(elem, n, k, ops)
+	ob, done, pmsg := runM(elem, n, k, ops)
+	ops = ops[:done]
 	univ := make([]int, n)
 	for i := range univ {
 		univ[i] = i
 	}
 	g := "{| mc_univ := " + galArgs(univ) + "; mc_vars := " + gal.Nat(k) + "; mc_ops := " + gal.ListOf(ops, galMop) +
 		"; mc_obs := " + gal.ListOf(ob, func(row []obs) string { return gal.ListOf(row, galObs) }) + " |}"
-	out.Case(g, mcase{kind, elem, n, k, ops, ob})
+	out.Case(g, mcase{kind, elem, n, k, ops, ob, pmsg})
 }
 
 func randomMulti(r *rand.Rand, out *gal.Out) {
@@ -273,7 +295,7 @@ func randomMulti(r *rand.Rand, out *gal.Out) {
 	emitMulti(out, "multi", elem, n, k, ops)
 }
 
-func run(elem string, n int, ops []op) []obs {
+func run(elem string, n int, ops []op) ([]obs, int, string) {
 	switch elem {
 	case "int":
 		u := make([]int, n)
@@ -339,14 +361,15 @@ func galObs(o obs) string {
 }
 
 func emit(out *gal.Out, kind, elem string, n int, ops []op) {
-	ob := run(elem, n, ops)
+	ob, done, pmsg := run(elem, n, ops)
+	ops = ops[:done]
 	univ := make([]int, n)
 	for i := range univ {
 		univ[i] = i
 	}
 	g := "{| sc_univ := " + galArgs(univ) + "; sc_ops := " + gal.ListOf(ops, galOp) +
 		"; sc_obs := " + gal.ListOf(ob, galObs) + " |}"
-	out.Case(g, jcase{kind, elem, n, ops, ob})
+	out.Case(g, jcase{kind, elem, n, ops, ob, pmsg})
 }
 
 func args(r *rand.Rand, n, min int) []int {
@@ -360,6 +383,109 @@ func args(r *rand.Rand, n, min int) []int {
 		}
 	}
 	return a
+}
+
+// ---- beyond the small universes: sets larger than one map bucket, long argument lists ----
+
+func seqInts(a, b int) []int { // a, a+1, ..., b-1
+	out := make([]int, 0, b-a)
+	for i := a; i < b; i++ {
+		out = append(out, i)
+	}
+	return out
+}
+
+// longArgs draws 0..16 indices (with repeats, also the empty list).
+func longArgs(r *rand.Rand, n, min int) []int {
+	k := min + r.IntN(17-min)
+	a := make([]int, k)
+	for i := range a {
+		if i > 0 && r.IntN(4) == 0 {
+			a[i] = a[r.IntN(i)]
+		} else {
+			a[i] = r.IntN(n)
+		}
+	}
+	return a
+}
+
+// setArgs draws the members of an argument SET for AddSet/RemoveSet on a universe of n: from a
+// handful up to all n, contiguous ranges (so that disjoint / covering / half-overlapping
+// arguments of the receiver's size occur) or scattered.
+func setArgs(r *rand.Rand, n int) []int {
+	switch r.IntN(4) {
+	case 0:
+		return longArgs(r, n, 0)
+	case 1:
+		return seqInts(0, n)
+	default:
+		a, b := r.IntN(n+1), r.IntN(n+1)
+		if a > b {
+			a, b = b, a
+		}
+		return seqInts(a, b)
+	}
+}
+
+// bigCorpus: for a universe of n elements, a fixed script of operations on sets of about n/2 and
+// n members with arguments that are disjoint from, cover, and partly overlap the receiver,
+// argument lists of 16 items and of no item.
+func bigCorpus(out *gal.Out, n int, multi bool) {
+	h := n / 2
+	for _, e := range []string{"int", "string", "struct"} {
+		if multi {
+			emitMulti(out, "multi-corpus-big", e, n, 3, []mop{
+				{Op: "Make", V: 0, Args: seqInts(0, n)}, {Op: "Make", V: 1, Args: seqInts(0, h)}, {Op: "Make", V: 2, Args: seqInts(h, n)},
+				{Op: "RemoveSet", V: 1, W: 2}, {Op: "RemoveSet", V: 0, W: 1}, {Op: "AddSet", V: 1, W: 0}, {Op: "RemoveSet", V: 0, W: 0},
+				{Op: "AddSet", V: 0, W: 1}, {Op: "RemoveSet", V: 1, W: 0}, {Op: "Remove", V: 0}, {Op: "Has", V: 0, Args: seqInts(h, n)}})
+			continue
+		}
+		emit(out, "corpus-big", e, n, []op{
+			{"Make", seqInts(0, h)}, {"RemoveSet", seqInts(h, n)}, {"Remove", nil}, {"Has", seqInts(0, 16%n+1)},
+			{"HasAny", append(seqInts(h, n), 0)}, {"RemoveSet", seqInts(0, n)}, {"Add", seqInts(0, n)},
+			{"RemoveSet", seqInts(h/2, h/2+h)}, {"AddSet", seqInts(0, n)}, {"AddSet", seqInts(0, n)},
+			{"Remove", append(seqInts(0, 8), seqInts(0, 8)...)}, {"RemoveSelf", nil}, {"AddSet", seqInts(h, n)},
+			{"RemoveSet", seqInts(0, h)}, {"Add", nil}, {"Has", seqInts(h, n)}})
+	}
+}
+
+func randomBig(r *rand.Rand, out *gal.Out, sizes []int, multi bool) {
+	elem := []string{"int", "string", "struct"}[r.IntN(3)]
+	n := sizes[r.IntN(len(sizes))]
+	k := 2 + r.IntN(11)
+	if multi {
+		mops := []mop{{Op: "Make", V: 0, Args: setArgs(r, n)}, {Op: "Make", V: 1, Args: setArgs(r, n)}}
+		for len(mops) < k {
+			name := []string{"Add", "AddSet", "Remove", "RemoveSet", "RemoveSet", "Has", "HasAny"}[r.IntN(7)]
+			o := mop{Op: name, V: r.IntN(2), W: r.IntN(2)}
+			switch name {
+			case "Has", "HasAny":
+				o.Args = longArgs(r, n, 1)
+			case "Add", "Remove":
+				o.Args = longArgs(r, n, 0)
+			}
+			mops = append(mops, o)
+		}
+		emitMulti(out, "multi-big", elem, n, 2, mops)
+		return
+	}
+	ops := []op{{"Make", setArgs(r, n)}}
+	names := []string{"Add", "AddSet", "AddSet", "Remove", "Remove", "RemoveSet", "RemoveSet", "RemoveSet",
+		"Has", "HasAny", "AddSelf", "RemoveSelf", "Make"}
+	for len(ops) < k {
+		name := names[r.IntN(len(names))]
+		o := op{Op: name}
+		switch name {
+		case "Has", "HasAny":
+			o.Args = longArgs(r, n, 1)
+		case "Add", "Remove":
+			o.Args = longArgs(r, n, 0)
+		case "AddSet", "RemoveSet", "Make":
+			o.Args = setArgs(r, n)
+		}
+		ops = append(ops, o)
+	}
+	emit(out, "random-big", elem, n, ops)
 }
 
 func randomCase(r *rand.Rand, out *gal.Out) {
@@ -392,13 +518,30 @@ func randomCase(r *rand.Rand, out *gal.Out) {
 func main() {
 	seed := flag.Uint64("seed", 1, "PRNG seed")
 	prefix := flag.String("out", "c07", "output prefix")
-	mode := flag.String("mode", "random", "random|corpus")
+	mode := flag.String("mode", "random", "random|corpus|big|multi|file|multifile")
+	sizesFlag := flag.String("sizes", "9,17,33,65,129", "big mode / corpus: universe sizes beyond one map bucket")
 	n := flag.Int("n", 300, "number of random cases")
 	in := flag.String("in", "", "mode file: JSON lines {kind, elem, universe, ops} to execute")
 	flag.Parse()
 	r := gal.NewRand(*seed)
 	out := gal.NewOut(*prefix)
 	defer out.Close()
+	var sizes []int
+	for _, f := range strings.Split(*sizesFlag, ",") {
+		if v, err := strconv.Atoi(strings.TrimSpace(f)); err == nil && v >= 2 && v <= 400 {
+			sizes = append(sizes, v)
+		}
+	}
+	if len(sizes) == 0 {
+		sizes = []int{9, 17, 33, 65, 129}
+	}
+	if *mode == "big" || *mode == "bigmulti" {
+		// sequences (big) resp. two-variable programs (bigmulti) over the large universes
+		for i := 0; i < *n; i++ {
+			randomBig(r, out, sizes, *mode == "bigmulti")
+		}
+		return
+	}
 	if *mode == "multifile" {
 		f, err := os.Open(*in)
 		if err != nil {
@@ -423,6 +566,9 @@ func main() {
 				{Op: "Add", V: 0, Args: []int{2}}, {Op: "Remove", V: 1, Args: []int{0}}, {Op: "Has", V: 0, Args: []int{0, 2}}})
 			emitMulti(out, "multi-corpus", e, 4, 3, []mop{{Op: "Make", V: 0}, {Op: "Make", V: 2, Args: []int{3, 3, 1}}, {Op: "AddSet", V: 0, W: 2},
 				{Op: "RemoveSet", V: 2, W: 0}, {Op: "AddSet", V: 1, W: 0}, {Op: "RemoveSet", V: 0, W: 0}, {Op: "HasAny", V: 1, Args: []int{1, 2}}})
+		}
+		for _, sz := range sizes {
+			bigCorpus(out, sz, true)
 		}
 		for i := 0; i < *n; i++ {
 			randomMulti(r, out)
@@ -452,6 +598,12 @@ func main() {
 			emit(out, "corpus", e, 4, []op{{"Add", []int{0, 2}}, {"Has", []int{0, 2, 0, 2, 2}}, {"Has", []int{0, 1}},
 				{"HasAny", []int{1, 3, 3}}, {"Remove", []int{2, 2}}, {"Remove", []int{2}}, {"RemoveSelf", nil}, {"RemoveSelf", nil}})
 			emit(out, "corpus", e, 3, []op{{"Remove", []int{0}}, {"Has", []int{0}}, {"AddSetNil", nil}, {"AddSet", []int{1, 1}}, {"AddSelf", nil}})
+			// every operation with no argument at all, on a nil, an empty and a filled set
+			emit(out, "corpus", e, 3, []op{{"Add", nil}, {"Remove", nil}, {"Make", nil}, {"Remove", nil}, {"Add", nil}, {"Make", []int{0, 1}},
+				{"Remove", nil}, {"Add", nil}, {"AddSet", nil}, {"RemoveSet", nil}, {"Has", []int{0}}})
+		}
+		for _, sz := range sizes {
+			bigCorpus(out, sz, false)
 		}
 		return
 	}
